@@ -171,6 +171,15 @@ public:
 	outfile.close();
 	if (!ok)
 	  return false;
+	if (!outfile)
+	  {
+	    // Data still buffered when we called close() could not be
+	    // written (or close itself failed).
+	    std::cerr << output_body_file
+		      << ": "
+		      << strerror(errno) << "\n";
+	    return false;
+	  }
 	const string inf_file_name = output_body_file + ".inf";
 	if (!create_inf_file(inf_file_name, crc.get(), entry))
 	  {
